@@ -594,3 +594,52 @@ fn k_qrev_2_extra_new() {
     vcover!();
     std::mem::forget(x);
 }
+
+/// Does the top frame of the query stack list `key` as an output edge?
+pub(crate) fn top_frame_has_output(l: &ZalsaLocal, key: DatabaseKeyIndex) -> bool {
+    // SAFETY: not reentrant
+    unsafe {
+        l.with_query_stack_unchecked(|stack| {
+            stack.last().is_some_and(|q| crate::active_query::verif::has_output(q, key))
+        })
+    }
+}
+
+//@ob id=K-ZL-1 kind=C props=C10,C06 timeout=900 fn=ZalsaLocal::is_tracked_struct_of_active_query,ZalsaLocal::store_tracked_struct_id,ZalsaLocal::push_query
+//@ pre: query A is executing and created tracked struct S; A then calls query B (B is on top of the stack); any ids
+//@ post: S counts as "created by the current execution" only while A is the innermost executing query: false while B executes (so `specify` from B panics), true for A before the call
+#[cfg_attr(kani, kani::proof)]
+#[cfg_attr(kani, kani::unwind(5))]
+#[cfg_attr(salsa_verif_replay, test)]
+fn k_zl_1_ownership_is_checked_against_the_innermost_query() {
+    let l = ZalsaLocal::new();
+    let a = vk::key(3, 1);
+    let b = vk::key(4, 2);
+    let s_id = vk::any_id();
+    let s = DatabaseKeyIndex::new(IngredientIndex::new(9), s_id);
+    let fa = l.push_query(a);
+    assert!(!l.is_tracked_struct_of_active_query(s));
+    l.store_tracked_struct_id(crate::tracked_struct::verif::identity(9, 77, 0), s_id);
+    assert!(l.is_tracked_struct_of_active_query(s));
+    let fb = l.push_query(b);
+    assert!(!l.is_tracked_struct_of_active_query(s));
+    vcover!();
+    std::mem::forget(fb);
+    std::mem::forget(fa);
+    std::mem::forget(l);
+}
+
+impl ZalsaLocal {
+    /// Stand-in for `active_query_with_cycle_heads` in harnesses whose creator query is **not** inside a
+    /// cycle: same key and stamp (from the real query stack), statically empty cycle heads.
+    pub(crate) fn verif_active_query_no_cycle(&self) -> Option<(DatabaseKeyIndex, Stamp, CycleHeads)> {
+        self.active_query().map(|(k, s)| (k, s, CycleHeads::default()))
+    }
+}
+
+/// Give the innermost executing query the stamp (durability, changed_at) of "it has read inputs with
+/// this minimum durability and this maximum changed_at" without recording edges.
+pub(crate) fn set_top_stamp(l: &ZalsaLocal, d: Durability, r: Revision) {
+    // SAFETY: not reentrant
+    unsafe { l.with_query_stack_unchecked_mut(|stack| crate::active_query::verif::set_stamp(stack.last_mut().unwrap(), d, r)) }
+}
